@@ -115,6 +115,8 @@ impl Builtins {
                 let path: Rc<str> = normalized.to_string_lossy().into();
                 // first we check the cache
                 if let Some(val) = env.borrow().get_cached_path_val(path.clone()) {
+                    #[cfg(feature = "verif")]
+                    crate::verif::emit(serde_json::json!({"ev":"import","raw":raw_path.as_ref(),"norm":path.as_ref(),"res":"hit"}));
                     stack.push((val, path_pos));
                     return Ok(());
                 }
@@ -122,6 +124,8 @@ impl Builtins {
                     .iter()
                     .any(|p| p.as_ref() == path.as_ref())
                 {
+                    #[cfg(feature = "verif")]
+                    crate::verif::emit(serde_json::json!({"ev":"import","raw":raw_path.as_ref(),"norm":path.as_ref(),"res":"cycle"}));
                     return Err(Error::new(
                         format!("Import cycle detected: {} in {:?}", path, import_stack).into(),
                         pos,
@@ -133,6 +137,8 @@ impl Builtins {
                         stack.push((v, path_pos));
                     }
                     None => {
+                        #[cfg(feature = "verif")]
+                        crate::verif::emit(serde_json::json!({"ev":"import","raw":raw_path.as_ref(),"norm":path.as_ref(),"res":"eval"}));
                         let op_pointer = decorate_error!(path_pos => env.borrow_mut().get_ops_for_path(path.as_ref()))?;
                         let base_path = normalized.parent().ok_or_else(|| {
                             Error::new(
@@ -147,6 +153,8 @@ impl Builtins {
                         let result = Rc::new(vm.symbols_to_tuple(true));
                         env.borrow_mut()
                             .update_path_val(path.clone(), result.clone());
+                        #[cfg(feature = "verif")]
+                        crate::verif::emit(serde_json::json!({"ev":"import_done","norm":path.as_ref()}));
                         stack.push((result, pos));
                     }
                 }
@@ -194,6 +202,9 @@ impl Builtins {
         } else {
             panic!("BUG: stack underflow in include (type) - translator emitted wrong opcode sequence");
         };
+        #[cfg(feature = "verif")]
+        crate::verif::emit(serde_json::json!({"ev":"include","ty":typ.as_ref(),"path":path.as_ref(),
+            "okay":File::open(path.as_ref()).is_ok()}));
         if typ.as_ref() == "str" {
             stack.push((
                 Rc::new(P(Str(self.get_file_as_string(&path)?))),
@@ -257,6 +268,8 @@ impl Builtins {
                         "TYPE FAIL - Expected Boolean field ok in tuple {} at {}\n",
                         tuple, tpl_pos
                     );
+                    #[cfg(feature = "verif")]
+                    crate::verif::emit(serde_json::json!({"ev":"assert","idx":env.borrow().assert_results.counter,"okay":false,"wellformed":false}));
                     env.borrow_mut().record_assert_result(&msg, false);
                     return Ok(());
                 };
@@ -268,9 +281,13 @@ impl Builtins {
                         "TYPE FAIL - Expected String field desc in tuple {} at {}\n",
                         tuple, tpl_pos
                     );
+                    #[cfg(feature = "verif")]
+                    crate::verif::emit(serde_json::json!({"ev":"assert","idx":env.borrow().assert_results.counter,"okay":false,"wellformed":false}));
                     env.borrow_mut().record_assert_result(&msg, false);
                     return Ok(());
                 };
+                #[cfg(feature = "verif")]
+                crate::verif::emit(serde_json::json!({"ev":"assert","idx":env.borrow().assert_results.counter,"okay":ok,"wellformed":true}));
                 env.borrow_mut().record_assert_result(desc, ok);
                 return Ok(());
             }
@@ -278,6 +295,8 @@ impl Builtins {
                 "TYPE FAIL - Expected tuple with ok and desc fields got {} at {}\n",
                 tuple, tpl_pos
             );
+            #[cfg(feature = "verif")]
+            crate::verif::emit(serde_json::json!({"ev":"assert","idx":env.borrow().assert_results.counter,"okay":false,"wellformed":false}));
             env.borrow_mut().record_assert_result(&msg, false);
         } else {
             panic!("BUG: stack underflow in assert - translator emitted wrong opcode sequence");
@@ -300,11 +319,15 @@ impl Builtins {
         let write_path: Option<PathBuf> = if let Some(path) = path {
             let write_path = path.as_ref().to_path_buf();
             if env.borrow().get_out_lock_for_path(&path) {
+                #[cfg(feature = "verif")]
+                crate::verif::emit(serde_json::json!({"ev":"out_lock","path":write_path.to_string_lossy(),"already":true}));
                 return Err(Error::new(
                     "You can only have one output per file".into(),
                     pos,
                 ));
             }
+            #[cfg(feature = "verif")]
+            crate::verif::emit(serde_json::json!({"ev":"out_lock","path":write_path.to_string_lossy(),"already":false}));
             env.borrow_mut().set_out_lock_for_path(path.as_ref());
             Some(write_path)
         } else {
@@ -325,16 +348,24 @@ impl Builtins {
                 if let &Value::P(Primitive::Str(ref c_type)) = c_type_val.as_ref() {
                     let stdout = env.borrow().stdout();
                     match env.borrow().converter_registry.get_converter(c_type) { Some(c) => {
+                        #[cfg(feature = "verif")]
+                        let verif_out = write_path.as_ref().map(|p| p.with_extension(c.file_ext()).to_string_lossy().to_string());
                         let mut writer: Box<dyn std::io::Write> = match write_path {
                             Some(p) => {
                                 let p = p.with_extension(c.file_ext());
+                                #[cfg(feature = "verif")]
+                                crate::verif::emit(serde_json::json!({"ev":"out_create","path":p.to_string_lossy()}));
                                 Box::new(File::create(&p)?)
                             }
                             None => Box::new(stdout),
                         };
                         if let Err(e) = c.convert(Rc::new(val), &mut writer) {
+                            #[cfg(feature = "verif")]
+                            if let Some(ref p) = verif_out { crate::verif::emit(serde_json::json!({"ev":"out_done","path":p,"okay":false})); }
                             return Err(Error::new(format!("{}", e).into(), pos.clone()));
                         }
+                        #[cfg(feature = "verif")]
+                        if let Some(ref p) = verif_out { crate::verif::emit(serde_json::json!({"ev":"out_done","path":p,"okay":true})); }
                         return Ok(());
                     } _ => {
                         return Err(Error::new(
